@@ -50,6 +50,15 @@ class Roles:
                 if isinstance(n, ast.Assign):
                     d = self.deps(n.value, env)
                     for t in n.targets:
+                        # unpacking of a pair built element by element (`b, c = (s.metrics(task)["latency"] for s in (baseline_stats, contender_stats))`, a display, a helper
+                        # that returns a tuple display): every name gets the roles of ITS element, not of the whole value
+                        parts = self.parts(n.value, env, len(t.elts)) if isinstance(t, (ast.Tuple, ast.List)) else None
+                        if parts is not None:
+                            for t_, d_ in zip(t.elts, parts):
+                                for x in ast.walk(t_):
+                                    if isinstance(x, ast.Name):
+                                        env[x.id] = env.get(x.id, set()) | d_
+                            continue
                         for x in ast.walk(t):
                             if isinstance(x, ast.Name):
                                 env[x.id] = env.get(x.id, set()) | d
@@ -66,6 +75,40 @@ class Roles:
                         d |= self.deps(a, env)
                     env[n.func.value.id] = env.get(n.func.value.id, set()) | d
         return env
+
+    def parts(self, v, env, k):
+        """the roles of each of the k elements of a value that is built element by element: a tuple / list display, a comprehension over a literal display of k elements, or a
+        call of a helper method whose returns are all displays of k elements; None for any other value"""
+        if isinstance(v, (ast.Tuple, ast.List)):
+            return [self.deps(x, env) for x in v.elts] if len(v.elts) == k and not any(isinstance(x, ast.Starred) for x in v.elts) else None
+        if isinstance(v, (ast.ListComp, ast.GeneratorExp)) and len(v.generators) == 1 and not v.generators[0].ifs and isinstance(v.generators[0].iter, (ast.Tuple, ast.List)) and \
+                len(v.generators[0].iter.elts) == k and not any(isinstance(x, ast.Starred) for x in v.generators[0].iter.elts):
+            out = []
+            tgt = v.generators[0].target
+            for el in v.generators[0].iter.elts:
+                env2 = dict(env)
+                if isinstance(tgt, ast.Name):
+                    env2[tgt.id] = self.deps(el, env)
+                elif isinstance(tgt, (ast.Tuple, ast.List)) and isinstance(el, (ast.Tuple, ast.List)) and len(el.elts) == len(tgt.elts) and all(isinstance(x, ast.Name) for x in tgt.elts):
+                    for x, y in zip(tgt.elts, el.elts):
+                        env2[x.id] = self.deps(y, env)
+                else:
+                    return None
+                out.append(self.deps(v.elt, env2))
+            return out
+        callee = self.methods.get(v.func.attr) if isinstance(v, ast.Call) and isinstance(v.func, ast.Attribute) and isinstance(v.func.value, ast.Name) and v.func.value.id == "self" else None
+        if callee is not None and callee.name not in self.opaque and self.depth < 3 and not callee.args.vararg and not callee.args.kwarg and \
+                not any(isinstance(a, ast.Starred) for a in v.args) and not any(kw.arg is None for kw in v.keywords):
+            rets = [r.value for r in walk_body(callee) if isinstance(r, ast.Return)]
+            if rets and all(isinstance(r, (ast.Tuple, ast.List)) and len(r.elts) == k and not any(isinstance(x, ast.Starred) for x in r.elts) for r in rets):
+                penv = {p: frozenset(self.deps(a, env)) for p, a in bind_args(v, callee).items()}
+                self.depth += 1
+                try:
+                    cenv = self.env_for(callee, params=penv)
+                    return [set().union(*[self.deps(r.elts[i], cenv) for r in rets]) for i in range(k)]
+                finally:
+                    self.depth -= 1
+        return None
 
     def deps(self, e, env):
         if e is None:
@@ -488,6 +531,15 @@ def run(chk):
     from sa import minieval
 
     # ---- helpers shared by the rules: what a construct inside an EXTRACTED HELPER or a TABLE-DRIVEN loop / comprehension stands for -----------------------------------
+    from sa.classes import is_logging_stmt
+
+    def in_log(n):
+        """the node lies in a logging statement (a log line that mentions a value does not act on the report)"""
+        try:
+            return is_logging_stmt(source.enclosing_stmt(n))
+        except (AttributeError, TypeError):
+            return False
+
     def assigned_in(g, name):
         """the name is (re)bound somewhere in g's own body (a parameter that is re-bound no longer holds the caller's argument)."""
         return any(isinstance(x, ast.Name) and x.id == name and isinstance(x.ctx, ast.Store) for x in walk_body(g))
@@ -905,7 +957,7 @@ def run(chk):
             out = set()
             names = derived(root)
             for n in ast.walk(f):
-                if isinstance(n, ast.Name) and n.id in names and isinstance(n.ctx, ast.Load):
+                if isinstance(n, ast.Name) and n.id in names and isinstance(n.ctx, ast.Load) and not in_log(n):
                     top = n
                     while isinstance(source.parent(top), (ast.Attribute, ast.Subscript)) and source.parent(top).value is top or \
                             (isinstance(source.parent(top), ast.Call) and source.parent(top).func is top):
@@ -1275,7 +1327,7 @@ def run(chk):
 
     # a read of the flag: `<receiver>.plain`, the receiver being the first parameter of the method the read lies in (whatever it is called)
     reads = [n for m_ in cm.values() for n in ast.walk(m_) if isinstance(n, ast.Attribute) and n.attr == FLAG and isinstance(n.ctx, ast.Load) and isinstance(n.value, ast.Name) and
-             n.value.id in params_of(m_)[:1]]
+             n.value.id in params_of(m_)[:1] and not in_log(n)]
     if not reads:
         chk.unknown("O20.4", "no read of the plain flag located in the comparison reporter (how does the file table differ from the console table?)", CR)
     else:
@@ -1297,40 +1349,101 @@ def run(chk):
         """the boolean a _metrics_table call passes as its plain flag (through single-assignment locals of report()), None when it is not a constant"""
         e = bind_args(c, mt).get(mtp[3])
         e = source.inline_node(e, rdefs) if e is not None else None
-        return e.value if isinstance(e, ast.Constant) and isinstance(e.value, bool) else None
+        return const_bool(e)
 
-    if len(mcalls) != 2 or any(plain_arg(c) is None for c in mcalls):
+    def expand_display(e):
+        """a comprehension / generator expression over a LITERAL table as the display it builds (one element per row, the loop variables substituted); a display is itself"""
+        if isinstance(e, (ast.ListComp, ast.GeneratorExp, ast.SetComp, ast.DictComp)) and len(e.generators) == 1 and not e.generators[0].ifs:
+            els = literal_elements(e.generators[0].iter, rdefs)
+            rows = [bind_target(e.generators[0].target, el) for el in els] if els is not None else [None]
+            if any(r_ is None for r_ in rows):
+                return None
+            if isinstance(e, ast.DictComp):
+                return ast.Dict(keys=[source.inline_node(e.key, r_) for r_ in rows], values=[source.inline_node(e.value, r_) for r_ in rows])
+            return ast.List(elts=[source.inline_node(e.elt, r_) for r_ in rows], ctx=ast.Load())
+        return e if isinstance(e, (ast.List, ast.Tuple, ast.Dict)) else None
+
+    # names of report() bound once by unpacking a display / a comprehension over a literal table (`plain_table, rich_table = (self._metrics_table(b, c, p) for p in (True, False))`)
+    unpacked = {}
+    stores = [x.id for x in ast.walk(rep) if isinstance(x, ast.Name) and isinstance(x.ctx, ast.Store)]
+    for n in walk_body(rep):
+        if isinstance(n, ast.Assign) and len(n.targets) == 1 and isinstance(n.targets[0], (ast.Tuple, ast.List)) and all(isinstance(t_, ast.Name) for t_ in n.targets[0].elts):
+            disp = expand_display(source.inline_node(n.value, rdefs))
+            if isinstance(disp, (ast.List, ast.Tuple)) and len(disp.elts) == len(n.targets[0].elts):
+                unpacked.update({t_.id: v_ for t_, v_ in zip(n.targets[0].elts, disp.elts) if stores.count(t_.id) == 1})
+
+    def table_expr(e, depth=0):
+        """the expression that builds the table an expression of report() denotes: through single-assignment locals, tuple unpacking and constant subscripts of a display or of a
+        comprehension over a literal table"""
+        if e is None or depth > 6:
+            return e
+        if isinstance(e, ast.Name):
+            return table_expr(rdefs[e.id], depth + 1) if e.id in rdefs else (table_expr(unpacked[e.id], depth + 1) if e.id in unpacked else e)
+        if isinstance(e, ast.Subscript):
+            base_ = table_expr(e.value, depth + 1)
+            base_ = expand_display(base_) if base_ is not None else None
+            try:
+                k_ = ast.literal_eval(e.slice)
+            except (ValueError, TypeError, SyntaxError):
+                return e
+            if isinstance(base_, (ast.List, ast.Tuple)) and isinstance(k_, int) and -len(base_.elts) <= k_ < len(base_.elts):
+                return table_expr(base_.elts[k_], depth + 1)
+            if isinstance(base_, ast.Dict):
+                for kk, vv in zip(base_.keys, base_.values):
+                    try:
+                        if kk is not None and ast.literal_eval(kk) == k_:
+                            return table_expr(vv, depth + 1)
+                    except (ValueError, TypeError, SyntaxError):
+                        return e
+        return e
+
+    # the tables report() builds: one per _metrics_table call, one per row when the call is made in a comprehension / loop over a literal table of flags
+    minst = []
+    for c in mcalls:
+        for (fe,), _ in instantiate(c, [bind_args(c, mt).get(mtp[3])], lambda t_: const_bool(t_[0]) is not None) or [((None,), None)]:
+            minst.append((c, const_bool(fe)))
+    if len(minst) != 2 or any(f_ is None for _, f_ in minst):
         chk.unknown("O20.4", f"the two tables are not built by two _metrics_table calls with a constant plain flag in report() ({len(mcalls)} call(s) located)", mcalls[0] if mcalls else rep)
     else:
-        a, b = mbind
+        a, b = bind_args(minst[0][0], mt), bind_args(minst[1][0], mt)
         same = all(a.get(p_) is not None and b.get(p_) is not None and source.inline(a[p_], rdefs) == source.inline(b[p_], rdefs) for p_ in (mtp[1], mtp[2]))
-        chk.ob("O20.4", "both tables from the same routine, only `plain` differs", same and {plain_arg(c) for c in mcalls} == {True, False}, mcalls[0],
-               f"plain flags {[plain_arg(c) for c in mcalls]}" + ("" if same else "; the race arguments differ"))
+        chk.ob("O20.4", "both tables from the same routine, only `plain` differs", same and {f_ for _, f_ in minst} == {True, False}, mcalls[0],
+               f"plain flags {[f_ for _, f_ in minst]}" + ("" if same else "; the race arguments differ"))
     recv_mt = params_of(mt)[0]
     sets = [n for n in walk_body(mt) if isinstance(n, ast.Assign) and any(isinstance(t, ast.Attribute) and t.attr == FLAG and isinstance(t.value, ast.Name) and t.value.id == recv_mt for t in n.targets)]
     if not sets:
         chk.unknown("O20.4", "_metrics_table does not assign the plain flag: the flag reaches the difference cells in a way this rule does not follow", mt)
     else:
-        # "before building lines": an unconditional top-level assignment that no call of a method of the reporter precedes (logging and other statements in front do not matter);
-        # the assigned value is the parameter (decided on values: it evaluates to True for True and to False for False)
-        try:
-            from_param = len(sets) == 1 and all(minieval.ev(sets[0].value, {mtp[3]: v_}) is v_ for v_ in (True, False))
-        except minieval.CannotEval:
-            from_param = None
-        if from_param is None:
-            chk.unknown("O20.4", f"the value `{short(sets[0].value, 50)}` assigned to the plain flag cannot be evaluated from the parameter", sets[0])
+        # "before building lines", by control flow: every call of a reporting method in _metrics_table is dominated by an assignment of the flag FROM THE PARAMETER (decided on
+        # values: the assigned expression evaluates to True for True and to False for False), and no other assignment of the flag can reach such a call
+        def from_param(s_):
+            try:
+                return all(minieval.ev(s_.value, {mtp[3]: v_}) is v_ for v_ in (True, False))
+            except minieval.CannotEval:
+                return None
+
+        verdicts = [from_param(s_) for s_ in sets]
+        if None in verdicts:
+            chk.unknown("O20.4", f"the value `{short(sets[verdicts.index(None)].value, 50)}` assigned to the plain flag cannot be evaluated from the parameter", sets[verdicts.index(None)])
         else:
-            ok = from_param and sets[0] in mt.body and \
-                not any(isinstance(x, ast.Call) and isinstance(x.func, ast.Attribute) and isinstance(x.func.value, ast.Name) and x.func.value.id == recv_mt and x.func.attr in cm
-                        for s_ in mt.body[: mt.body.index(sets[0])] for x in ast.walk(s_))
-            chk.ob("O20.4", "_metrics_table sets the flag from its parameter before building lines", ok, sets[0], "")
+            gmt = cfg_of(mt)
+            good = [gmt.node_of(s_) for s_, v_ in zip(sets, verdicts) if v_]
+            bad_ = [gmt.node_of(s_) for s_, v_ in zip(sets, verdicts) if not v_]
+            builds = [n for h, n, callee in call_graph() if h is mt and not (callee.name in plumbing and cm.get(callee.name) is callee)]
+            if not builds:
+                chk.unknown("O20.4", "no call of a reporting method located in _metrics_table: where the lines are built relative to the flag assignment cannot be told", mt)
+            else:
+                late = [n for n in builds if not (good and gmt.dominated_by_nodes(gmt.node_of(n), good))]
+                stale = [n for n in builds for b_ in bad_ if gmt.path_exists(b_, gmt.node_of(n))]
+                chk.ob("O20.4", "_metrics_table sets the flag from its parameter before building lines", not late and not stale, sets[0],
+                       "" if not late and not stale else (f"`{short(late[0], 50)}` is not dominated by the assignment of the flag" if late else f"`{short(stale[0], 50)}` can be reached from an assignment of another value"))
     ws = rp.func("write_single_report")
-    if not {"data_plain", "data_rich"} <= set(params_of(ws)):
-        raise AnchorMissing("write_single_report(..., data_plain, data_rich)")
     wr = cm.get("_write_report")
     wcall = [n for n in walk_body(rep) if isinstance(n, ast.Call) and isinstance(n.func, ast.Attribute) and n.func.attr == "_write_report"]
     wsr = [n for n in walk_body(wr) if isinstance(n, ast.Call) and last_attr(n.func) == "write_single_report"] if wr is not None else []
-    verdict = None
+    # the two data parameters of the writer BY ROLE: the parameter the plain table reaches and the one the rich table reaches (report() -> _write_report -> write_single_report),
+    # whatever they are called
+    p_plain = p_rich = None
     if wcall and wsr:
         bw, bs = bind_args(wcall[0], wr), bind_args(wsr[0], ws)
         wdefs_ = local_defs(wr)
@@ -1339,42 +1452,78 @@ def run(chk):
             """the plain flag of the table that reaches this argument of write_single_report: parameter of _write_report -> argument in report() -> _metrics_table call"""
             e = source.inline_node(e, wdefs_) if e is not None else None
             e = bw.get(e.id) if isinstance(e, ast.Name) else None
-            e = source.inline_node(e, rdefs) if e is not None else None
+            e = table_expr(e) if e is not None else None
             return plain_arg(e) if isinstance(e, ast.Call) and isinstance(e.func, ast.Attribute) and e.func.attr == "_metrics_table" else None
 
-        got = (table_flag(bs.get("data_plain")), table_flag(bs.get("data_rich")))
-        verdict = None if None in got else got == (True, False)
-    if verdict is None:
-        chk.unknown("O20.4", "which table (plain / rich) reaches data_plain and data_rich of write_single_report cannot be derived (report() -> _write_report -> write_single_report)", wcall[0] if wcall else rep)
-    else:
-        chk.ob("O20.4", "plain table -> data_plain, rich table -> data_rich", verdict, wcall[0], f"(plain flag of data_plain, of data_rich) = {got}")
-    # the formatter by role: the callable applied to (headers, <one of the two data parameters>) whose result reaches the console sink resp. the file sink (directly or through a
-    # single-assignment local); both outputs must go through the same one
+        flags = {p_: table_flag(a_) for p_, a_ in bs.items()}
+        plains, riches = [p_ for p_, v_ in flags.items() if v_ is True], [p_ for p_, v_ in flags.items() if v_ is False]
+        if len(plains) == 1 and len(riches) == 1:
+            p_plain, p_rich = plains[0], riches[0]
+    # the rendering by role: a callable applied to (<headers>, <one of the two data parameters>) - positionally or by keyword - whose result reaches the console sink resp. the file
+    # sink: directly, through a single-assignment local, or through a module-level helper function it is handed to (an extracted "append to the report file" helper)
     wsdefs = local_defs(ws)
+    CONSOLE, FILE = ("print_internal", "println"), ("writelines", "write")
 
-    def rendered_into(sinks):
+    def closure(e, defs):
+        """the nodes of e and of the single-assignment locals it reads (a local that holds the rendered text)"""
+        seen_, todo = [], [e]
+        while todo and len(seen_) < 400:
+            e_ = todo.pop()
+            for x in ast.walk(e_):
+                seen_.append(x)
+                if isinstance(x, ast.Name) and isinstance(x.ctx, ast.Load) and x.id in defs and not (isinstance(source.parent(x), ast.Call) and source.parent(x).func is x):
+                    todo.append(defs[x.id])
+        return seen_
+
+    def sinks_reached(fn, depth=0):
+        """[(sink kind, nodes that reach it)] for the sink calls of fn, and for the calls of module-level helpers whose parameter reaches a sink there"""
         out = []
-        for n in walk_body(ws):
-            if isinstance(n, ast.Call) and last_attr(n.func) in sinks:
-                for a_ in list(n.args) + [k_.value for k_ in n.keywords]:
-                    seen_, todo = [], [a_]
-                    while todo and len(seen_) < 400:
-                        e_ = todo.pop()
-                        for x in ast.walk(e_):
-                            seen_.append(x)
-                            if isinstance(x, ast.Name) and isinstance(x.ctx, ast.Load) and x.id in wsdefs and not (isinstance(source.parent(x), ast.Call) and source.parent(x).func is x):
-                                todo.append(wsdefs[x.id])  # a local that holds the rendered text
-                    for x in seen_:
-                        if isinstance(x, ast.Call) and isinstance(x.func, ast.Name) and len(x.args) == 2 and not x.keywords and isinstance(x.args[1], ast.Name) and x.args[1].id in ("data_plain", "data_rich"):
-                            out.append(x)
+        defs = local_defs(fn)
+        for n in walk_body(fn):
+            if not isinstance(n, ast.Call):
+                continue
+            args = list(n.args) + [k_.value for k_ in n.keywords]
+            if last_attr(n.func) in CONSOLE + FILE:
+                out += [("console" if last_attr(n.func) in CONSOLE else "file", closure(a_, defs)) for a_ in args]
+            elif isinstance(n.func, ast.Name) and n.func.id in mod_funcs and mod_funcs[n.func.id] is not fn and depth < 2:
+                helper = mod_funcs[n.func.id]
+                for kind, nodes in sinks_reached(helper, depth + 1):
+                    for p_, a_ in bind_args(n, helper, skip_self=False).items():
+                        if any(isinstance(x, ast.Name) and x.id == p_ and isinstance(x.ctx, ast.Load) for x in nodes):
+                            out.append((kind, closure(a_, defs)))
         return out
 
-    to_console, to_file = rendered_into(("print_internal", "println")), rendered_into(("writelines", "write"))
-    if len(to_console) != 1 or len(to_file) != 1:
-        chk.unknown("O20.4", f"the rendering of the two tables is not located in write_single_report ({len(to_console)} rendered table(s) reach the console, {len(to_file)} the file)", ws)
+    def data_args(x):
+        return [a_ for a_ in list(x.args) + [k_.value for k_ in x.keywords] if isinstance(a_, ast.Name) and a_.id in (p_plain, p_rich)]
+
+    def rendered_into(kind):
+        found = {}
+        for k_, nodes in sinks_reached(ws):
+            if k_ == kind:
+                for x in nodes:
+                    if isinstance(x, ast.Call) and isinstance(x.func, ast.Name) and len(data_args(x)) == 1 and len(x.args) + len(x.keywords) >= 2:
+                        found[id(x)] = x
+        return list(found.values())
+
+    if p_plain is None:
+        chk.unknown("O20.4", "which table (plain / rich) reaches which parameter of write_single_report cannot be derived (report() -> _write_report -> write_single_report)", wcall[0] if wcall else rep)
     else:
-        ok = u(to_console[0].args[1]) == "data_rich" and u(to_file[0].args[1]) == "data_plain" and u(to_console[0].args[0]) == u(to_file[0].args[0]) and to_console[0].func.id == to_file[0].func.id
-        chk.ob("O20.4", "same formatter: rich -> console, plain -> file", ok, ws, f"console <- {u(to_console[0])}; file <- {u(to_file[0])}")
+        to_console, to_file = rendered_into("console"), rendered_into("file")
+        if len(to_console) != 1 or len(to_file) != 1:
+            chk.unknown("O20.4", f"the rendering of the two tables is not located in write_single_report ({len(to_console)} rendered table(s) reach the console, {len(to_file)} the file)", ws)
+        else:
+            got = (data_args(to_file[0])[0].id, data_args(to_console[0])[0].id)
+            chk.ob("O20.4", "plain table -> data_plain, rich table -> data_rich", got == (p_plain, p_rich), wcall[0],
+                   f"the plain table arrives as `{p_plain}`, the rich table as `{p_rich}`; written to the file: `{got[0]}`, printed on the console: `{got[1]}`")
+
+            def others(x):
+                return sorted([f"{i_}:{u(a_)}" for i_, a_ in enumerate(x.args) if a_ not in data_args(x)] + [f"{k_.arg}={u(k_.value)}" for k_ in x.keywords if k_.value not in data_args(x)])
+
+            def where(x):
+                return [i_ for i_, a_ in enumerate(x.args) if a_ in data_args(x)] + [k_.arg for k_ in x.keywords if k_.value in data_args(x)]
+
+            ok = to_console[0].func.id == to_file[0].func.id and others(to_console[0]) == others(to_file[0]) and where(to_console[0]) == where(to_file[0])
+            chk.ob("O20.4", "same formatter: rich -> console, plain -> file", ok and got == (p_plain, p_rich), ws, f"console <- {u(to_console[0])}; file <- {u(to_file[0])}")
 
     # ---- O20.5 only common metrics --------------------------------------------------------------------------------------------------------------------------------
     chk.rule("O20.5", "a line is emitted only when both values are not None (4-row table); tasks are the intersection; guards on scalar metric values use `is None`, never truthiness (0 is a value); optional members of a stored task result (throughput mean, processing time) are read with a default in both races", 6,
@@ -1453,47 +1602,69 @@ def run(chk):
                "; ".join(f"_line(baseline={k_[0]}, contender={k_[1]}) {'emits a line' if got[k_] else 'emits no line'}" for k_ in wrong[:3]) +
                (" (a value of 0 must still be compared)" if not bn and not cn else ""))
     # per-task lines only for tasks of BOTH races. Shapes: a loop over one race's tasks (directly, through a hoisted local or wrapped in list / sorted / tuple) whose body
-    # tests membership in the other race's tasks (`if t in X: ...` / `if t not in X: continue`), or a loop over a comprehension that filters by that membership
-    mdefs_ = local_defs(mt)
-    menv = roles.env_for(mt)
+    # tests membership in the other race's tasks (`if t in X: ...` / `if t not in X: continue`), a loop over a comprehension that filters by that membership, or a comprehension
+    # / generator expression whose generator over the tasks carries the membership test as its condition; in _metrics_table or in a helper method extracted from it
     recv_ = params_of(mt)[0]
+    _tenv = {}
 
-    def unwrap(e):
-        e = source.inline_node(e, mdefs_)
+    def unwrap(e, m_, depth=0):
+        e = source.inline_node(e, local_defs(m_))
         while isinstance(e, ast.Call) and dotted(e.func) in ("set", "list", "tuple", "frozenset", "sorted") and len(e.args) == 1:
             e = e.args[0]
+        # the task list computed by an extracted helper method with a single return: the returned expression with the arguments of the call in place of the parameters
+        if isinstance(e, ast.Call) and isinstance(e.func, ast.Attribute) and isinstance(e.func.value, ast.Name) and e.func.value.id in params_of(m_)[:1] and e.func.attr in cm and depth < 2:
+            callee = cm[e.func.attr]
+            rets = [r_ for r_ in walk_body(callee) if isinstance(r_, ast.Return) and r_.value is not None]
+            args = {p_: arg_at(e, callee, p_) for p_ in own_params(callee)}
+            if len(rets) == 1 and all(a_ is not None for a_ in args.values()) and not any(assigned_in(callee, p_) for p_ in args):
+                body = source.inline_node(rets[0].value, {k_: v_ for k_, v_ in local_defs(callee).items() if k_ not in args})
+                return unwrap(source.inline_node(body, args), m_, depth + 1)
         return e
 
-    def tasks_of(e):
+    def tasks_of(e, m_):
         """(text, role set) of the race whose tasks() this expression is, else None"""
-        e = unwrap(e)
+        e = unwrap(e, m_)
         if isinstance(e, ast.Call) and isinstance(e.func, ast.Attribute) and e.func.attr == "tasks":
-            return u(e.func.value), frozenset(roles.deps(e.func.value, menv))
+            if id(m_) not in _tenv:
+                _tenv[id(m_)] = roles.env_for(m_)
+            return u(e.func.value), frozenset(roles.deps(e.func.value, _tenv[id(m_)]))
         return None
 
     def other_race(a_, b_):
         return a_[0] != b_[0] and (not a_[1] or not b_[1] or (a_[1] != b_[1] and len(a_[1]) == 1 and len(b_[1]) == 1))
 
     def per_task_calls(stmts_or_nodes, var):
-        return [c_ for e_ in stmts_or_nodes for c_ in ast.walk(e_) if isinstance(c_, ast.Call) and isinstance(c_.func, ast.Attribute) and isinstance(c_.func.value, ast.Name) and
-                c_.func.value.id == recv_ and c_.func.attr in cm and any(isinstance(a_, ast.Name) and a_.id == var for a_ in list(c_.args) + [k_.value for k_ in c_.keywords])]
+        """calls of a reporting method of the comparison (directly, through an alias or a table of bound methods) that are handed the task variable"""
+        return [c_ for e_ in stmts_or_nodes for c_ in ast.walk(e_) if isinstance(c_, ast.Call) and any(isinstance(a_, ast.Name) and a_.id == var for a_ in list(c_.args) + [k_.value for k_ in c_.keywords]) and
+                any(g_ is not line and g_ is not diff for g_ in callees(c_))]
 
     tl = []
-    for n in walk_body(mt):
-        if isinstance(n, ast.For) and isinstance(n.target, ast.Name) and per_task_calls(n.body, n.target.id):
-            it_ = unwrap(n.iter)
-            if tasks_of(it_) is not None:
-                tl.append(("loop", n, tasks_of(it_), None))
-            elif isinstance(it_, (ast.ListComp, ast.GeneratorExp, ast.SetComp)) and len(it_.generators) == 1 and tasks_of(it_.generators[0].iter) is not None and \
-                    isinstance(it_.generators[0].target, ast.Name) and u(it_.elt) == u(it_.generators[0].target):
-                tl.append(("comp", n, tasks_of(it_.generators[0].iter), it_.generators[0]))
+    for m_ in cm.values():
+        for n in walk_body(m_):
+            if isinstance(n, ast.For) and isinstance(n.target, ast.Name) and per_task_calls(n.body, n.target.id):
+                it_ = unwrap(n.iter, m_)
+                if tasks_of(it_, m_) is not None:
+                    tl.append(("loop", n, tasks_of(it_, m_), None, m_))
+                elif isinstance(it_, (ast.ListComp, ast.GeneratorExp, ast.SetComp)) and len(it_.generators) == 1 and tasks_of(it_.generators[0].iter, m_) is not None and \
+                        isinstance(it_.generators[0].target, ast.Name) and u(it_.elt) == u(it_.generators[0].target):
+                    tl.append(("comp", n, tasks_of(it_.generators[0].iter, m_), it_.generators[0], m_))
+            elif isinstance(n, (ast.ListComp, ast.GeneratorExp, ast.SetComp)):
+                for i_, gen in enumerate(n.generators):
+                    if isinstance(gen.target, ast.Name) and tasks_of(gen.iter, m_) is not None and per_task_calls(list(n.generators[i_ + 1:]) + [n.elt], gen.target.id):
+                        tl.append(("gen", n, tasks_of(gen.iter, m_), gen, m_))
     if len(tl) != 1:
-        chk.unknown("O20.5", f"the loop that builds the per-task lines from a race's tasks() is not located in _metrics_table ({len(tl)} candidate(s))", mt)
+        chk.unknown("O20.5", f"the loop that builds the per-task lines from a race's tasks() is not located in the comparison reporter ({len(tl)} candidate(s))", mt)
     else:
-        kind, loop, src_, gen_ = tl[0]
+        kind, loop, src_, gen_, m_ = tl[0]
         var = loop.target.id if kind == "loop" else gen_.target.id
-        cond_nodes = [n_.test for n_ in ast.walk(loop) if isinstance(n_, ast.If)] if kind == "loop" else list(gen_.ifs)
-        tests = [t_ for t_ in cond_nodes if isinstance(t_, ast.Compare) and len(t_.ops) == 1 and isinstance(t_.ops[0], (ast.In, ast.NotIn)) and u(t_.left) == var and tasks_of(t_.comparators[0]) is not None]
+        if kind == "loop":
+            cond_nodes = [n_.test for n_ in ast.walk(loop) if isinstance(n_, ast.If)]
+        elif kind == "comp":
+            cond_nodes = list(gen_.ifs)
+        else:
+            cond_nodes = [c_ for g2 in loop.generators[loop.generators.index(gen_):] for c_ in g2.ifs]
+        tests = [t_ for c_ in cond_nodes for t_ in ast.walk(c_) if isinstance(t_, ast.Compare) and len(t_.ops) == 1 and isinstance(t_.ops[0], (ast.In, ast.NotIn)) and u(t_.left) == var and
+                 tasks_of(t_.comparators[0], m_) is not None]
         detail = f"`{var}` of {src_[0]}.tasks()"
         if not tests:
             other_cond = cond_nodes or any(isinstance(n_, (ast.Try, ast.IfExp)) for n_ in ast.walk(loop))
@@ -1502,14 +1673,26 @@ def run(chk):
             else:
                 chk.ob("O20.5", "per-task lines for the intersection of tasks", False, loop, detail + ": lines are built for every task of one race, no membership test in the other race's tasks")
         else:
-            coll = tasks_of(tests[0].comparators[0])
+            coll = tasks_of(tests[0].comparators[0], m_)
             detail += f" kept when in {coll[0]}.tasks()"
             ok = other_race(src_, coll)
             if not ok:
                 detail += "; membership is tested in the tasks of the SAME race"
-            elif kind == "comp":
-                ok = isinstance(tests[0].ops[0], ast.In)
-                detail += "" if ok else "; the comprehension keeps the tasks that are NOT in the other race"
+            elif kind in ("comp", "gen"):
+                # polarity by evaluation of the generator's condition(s) for a member and for a non-member (other conditions taken as true)
+                def keeps(member):
+                    def atom(n):
+                        if any(n is t_ for t_ in tests):
+                            return member if isinstance(n.ops[0], ast.In) else not member
+                        return None if isinstance(n, (ast.BoolOp, ast.UnaryOp)) else True
+
+                    return all(bool_eval(c_, atom) for c_ in cond_nodes)
+
+                try:
+                    ok = keeps(True) and not keeps(False)
+                    detail += "" if ok else "; the comprehension does not keep exactly the tasks that are in the other race"
+                except UnknownAtom:
+                    pass
             else:
                 # polarity by evaluation of the loop body: lines for the task are produced when it is a member of the other race's tasks and none when it is not
                 # (`if t in X: ...` and `if t not in X: continue` read the same); switches on reporter attributes are taken as on
@@ -1517,7 +1700,7 @@ def run(chk):
                     def atom(n, env):
                         if any(n is t_ for t_ in tests):
                             return member if isinstance(n.ops[0], ast.In) else not member
-                        if isinstance(n, ast.Attribute) and isinstance(n.value, ast.Name) and n.value.id == recv_:
+                        if isinstance(n, ast.Attribute) and isinstance(n.value, ast.Name) and n.value.id == params_of(m_)[0]:
                             return True
                         return None
 
@@ -1669,32 +1852,86 @@ def run(chk):
         chk.ob("O20.5", "optional task-result members are read from both races alike (throughput mean, processing time: one read per race)", n_opt >= 4 and opt_seen["B"] == opt_seen["C"] == set(OPTIONAL), rep,
                f"{n_opt} read(s); baseline: {sorted('.'.join(p_) for p_ in opt_seen['B'])}; contender: {sorted('.'.join(p_) for p_ in opt_seen['C'])}", key=f"{_R}:ComparisonReporter:optional-members-symmetric")
     # scalar guards: a test on a value that is compared (an operand of a line construction: an attribute of a race, a local, or - in an extracted helper - the parameter the value
-    # arrives in and the argument expression at each call of the helper) must be an `is None` test, never truthiness
+    # arrives in and the argument expression at each call of the helper) must not depend on whether the value is ZERO. Decided on values: the test is evaluated with the
+    # operand 0 and with the operand 5 (the other operand of the line non-zero; atoms about other things tried both ways): `x is None`, `x == 0 and y == 0` (both-zero
+    # lines skipped on purpose) evaluate alike, `not x`, `x`, `x > 0` do not - a value of 0 would drop the line
+    def zero_sensitive(test, e_text, other_text):
+        """True / False: the truth of the test does / does not change with the compared value being 0 instead of non-zero; None: not decidable (too many foreign atoms)"""
+        class _Ph(ast.NodeTransformer):
+            def visit(self, n):
+                if isinstance(n, ast.expr) and u(n) == e_text:
+                    return ast.Name(id="__x__", ctx=ast.Load())
+                if isinstance(n, ast.expr) and other_text and u(n) == other_text:
+                    return ast.Name(id="__y__", ctx=ast.Load())
+                return self.generic_visit(n)
+
+        t = _Ph().visit(source.clone(test))
+        if not any(isinstance(x, ast.Name) and x.id == "__x__" for x in ast.walk(t)):
+            return False
+
+        def evaluable(n):
+            try:
+                minieval.ev(n, {"__x__": 5, "__y__": 5})
+                minieval.ev(n, {"__x__": 0, "__y__": 5})
+                return True
+            except (minieval.CannotEval, TypeError, ValueError, KeyError, IndexError, AttributeError):
+                return False
+
+        foreign = sorted({u(a_) for a_ in atoms_of(t) if not evaluable(a_)})
+        if len(foreign) > 4:
+            return None
+        for vals in itertools.product([False, True], repeat=len(foreign)):
+            asg = dict(zip(foreign, vals))
+
+            def truth(x):
+                def atom(n):
+                    if u(n) in asg:
+                        return asg[u(n)]
+                    try:
+                        return bool(minieval.ev(n, {"__x__": x, "__y__": 5}))
+                    except (minieval.CannotEval, TypeError, ValueError, KeyError, IndexError, AttributeError):
+                        return None
+
+                return bool_eval(t, atom)
+
+            try:
+                if truth(0) != truth(5) or truth(0.0) != truth(5):
+                    return True
+            except UnknownAtom:
+                return None
+        return False
+
     n_guard = 0
     told = set()
     for f, c in sites:
         b = bind_args(c, line)
         g_ = source.enclosing_func(c) or f
-        for side in (P_BASE, P_CONT):
-            opnd = b.get(side)
+        for side, other_side in ((P_BASE, P_CONT), (P_CONT, P_BASE)):
+            opnd, other = b.get(side), b.get(other_side)
             if opnd is None or not isinstance(opnd, (ast.Attribute, ast.Name, ast.Subscript)):
                 continue
-            places = [(g_, opnd)]
+            places = [(g_, opnd, other)]
             if isinstance(opnd, ast.Name):
-                places += [(h_, e_) for h_, e_, _, _, lv_ in origins(g_, opnd, c) if lv_ and isinstance(e_, (ast.Attribute, ast.Name, ast.Subscript))]
-            for h_, e_ in places:
+                o1 = origins(g_, opnd, c)
+                o2 = origins(g_, other, c) if isinstance(other, ast.Name) else []
+                for i_, (h_, e_, _, _, lv_) in enumerate(o1):
+                    if lv_ and isinstance(e_, (ast.Attribute, ast.Name, ast.Subscript)):
+                        places.append((h_, e_, o2[i_][1] if len(o2) == len(o1) and o2[i_][0] is h_ else None))
+            for h_, e_, oth_ in places:
                 tests = [(n, n.test) for n in walk_body(h_) if isinstance(n, (ast.If, ast.IfExp, ast.While))] + [(n, t_) for n in walk_body(h_) if isinstance(n, ast.comprehension) for t_ in n.ifs]
                 for n, test in tests:
-                    for a in atoms_of(test):
-                        if u(a) == u(e_) and (id(n), u(e_)) not in told:
-                            told.add((id(n), u(e_)))
-                            chk.ob("O20.5", f"{h_.name}: guard on `{u(e_)}`", False, n, f"`{u(test)}` tests the compared value by truthiness: a value of 0 drops the line (and breaks swap symmetry / self-comparison)",
-                                   key=f"{_R}:{h_.name}:truthiness:{u(e_)}")
-                        c_ = comparison(a)
-                        if c_ and c_[1] in ("is", "is not") and ((u(c_[0]) == u(e_) and u(c_[2]) == "None") or (u(c_[2]) == u(e_) and u(c_[0]) == "None")) and (id(n), u(e_)) not in told:
-                            told.add((id(n), u(e_)))
-                            n_guard += 1
-                            chk.ob("O20.5", f"{h_.name}: `{u(a)}`", True, n, "")
+                    if (id(n), u(e_)) in told or not any(isinstance(x, ast.expr) and u(x) == u(e_) for x in ast.walk(test)):
+                        continue
+                    told.add((id(n), u(e_)))
+                    zs = zero_sensitive(test, u(e_), u(oth_) if oth_ is not None else None)
+                    if zs is None:
+                        chk.unknown("O20.5", f"{h_.name}: whether the test `{short(test, 60)}` depends on the compared value `{u(e_)}` being zero cannot be decided", n)
+                    elif zs:
+                        chk.ob("O20.5", f"{h_.name}: guard on `{u(e_)}`", False, n, f"`{u(test)}` decides differently for a value of 0 than for any other value of `{u(e_)}`: a value of 0 drops the line (and breaks swap symmetry / self-comparison)",
+                               key=f"{_R}:{h_.name}:truthiness:{u(e_)}")
+                    else:
+                        n_guard += 1
+                        chk.ob("O20.5", f"{h_.name}: `{short(test, 70)}`", True, n, f"decides alike for `{u(e_)}` = 0 and = 5")
     # a statistic that is absent from an (older) stored race reads back as None: a list-valued one that is ITERATED must be None-tested for the race it is read from — the baseline's
     # guard does not protect the loop over the contender's list (comparing new-vs-old would crash while old-vs-new works)
     met2 = repo.module("esrally/metrics.py")
@@ -1708,7 +1945,15 @@ def run(chk):
     def early_exit_tests(h, is_tested, anchor):
         """the `<tested> is None [or ...]` tests of function h with an early return / raise that dominate `anchor`, plus the enclosing positive guards of anchor that state the
         same fact (`if <tested> is not None [and ...]: ...`, or the else arm of an `is None [or ...]` test); is_tested(expression) says whether the operand is the one looked for."""
-        none_test = lambda d_, op=ast.Is: isinstance(d_, ast.Compare) and len(d_.ops) == 1 and isinstance(d_.ops[0], op) and source.is_const(d_.comparators[0], None) and is_tested(d_.left)  # noqa: E731
+        def none_test(d_, op=ast.Is):
+            """d_ states that the tested list is absent (op Is: `X is None`, `X == None`, `not X`) resp. present (op IsNot: `X is not None`, `X != None`, bare `X`); for a list-valued
+            statistic the truthiness forms are as good as the None test (an empty list yields no line either way)"""
+            if isinstance(d_, ast.Compare) and len(d_.ops) == 1 and isinstance(d_.ops[0], (op, ast.Eq if op is ast.Is else ast.NotEq)) and source.is_const(d_.comparators[0], None):
+                return is_tested(d_.left)
+            if op is ast.Is:
+                return isinstance(d_, ast.UnaryOp) and isinstance(d_.op, ast.Not) and is_tested(d_.operand)
+            return is_tested(d_)
+
         gh = cfg_of(h)
         found = []
         try:
@@ -1866,7 +2111,7 @@ def run(chk):
 
     def elem_key(e, var):
         """the member text K when e is `var[K]` / `var.get(K)`, else None"""
-        m_ = pat.match(e, "V_v[E_k]", binds={"v": var}) or pat.match(e, "V_v.get(E_k)", binds={"v": var})
+        m_ = pat.match(e, "V_v[E_k]", binds={"v": var}) or pat.match(e, "V_v.get(E_k)", binds={"v": var}) or pat.match(e, "V_v.get(E_k, E_d)", binds={"v": var})
         return m_["k"] if m_ else None
 
     n_pair = 0
@@ -1877,7 +2122,7 @@ def run(chk):
 
         def bound_from(idv, outer_n, outer_t, before):
             """the member K when the name idv is bound exactly once inside the outer iteration (before line `before`) as `<outer element>[K]` / `.get(K)`;
-            ('other', text) when it is bound there from the element in another way, ('stale', None) when it is only bound outside the iteration, None when it cannot be derived"""
+            ('stale', None) when it is only bound outside the iteration, None when it cannot be derived (bound from the element in another way: a converted / derived id)"""
             inside = scope[id(outer_n)]
             asg = [n for n in ast.walk(f) if isinstance(n, (ast.Assign, ast.NamedExpr)) and
                    any(isinstance(x, ast.Name) and x.id == idv for t_ in (n.targets if isinstance(n, ast.Assign) else [n.target]) for x in ast.walk(t_))]
@@ -1887,9 +2132,6 @@ def run(chk):
                 return None  # the id is itself a loop variable (iteration over a keyed container): which member it is cannot be read off here
             if len(here) == 1 and elem_key(here[0].value, outer_t) is not None:
                 return elem_key(here[0].value, outer_t)
-            if here and all(any(isinstance(x, ast.Name) and x.id == outer_t for x in ast.walk(n.value)) for n in here) and all(elem_key(n.value, outer_t) is None for n in here) and \
-                    all(isinstance(n.value, (ast.Subscript, ast.Call)) and isinstance(getattr(n.value, "value", getattr(n.value, "func", None)), (ast.Name, ast.Attribute)) for n in here):
-                return ("other", u(here[0].value))
             if not here and asg and not any(id(n) in inside for n in asg):
                 return ("stale", None)
             return None
@@ -1931,8 +2173,7 @@ def run(chk):
                         continue
                     if isinstance(got, tuple):
                         ok = False
-                        why = f": `{idv}` is bound from `{got[1]}`, not from `{outer_tg.id}[{k_in}]` - the two lists are paired by different members" if got[0] == "other" else \
-                            f": `{idv}` is not bound from `{outer_tg.id}[{k_in}]` inside this loop — it still holds the value an earlier loop left behind"
+                        why = f": `{idv}` is not bound from `{outer_tg.id}[{k_in}]` inside this loop — it still holds the value an earlier loop left behind"
                     else:
                         ok = got == k_in
                         why = "" if ok else f": `{idv}` is `{outer_tg.id}[{got}]`, the contender's element is selected by `[{k_in}]` - the two lists are paired by different members"
@@ -2202,4 +2443,359 @@ VARIANTS += [
     V("h2 segment memory lines from a literal table", "keep", _R, _SEG_RE, _seg_table(), regex=True),
     V("h2 segment memory lines from a literal table: direction flag inverted", "break", _R, _SEG_RE, _seg_table(flag="True"), "O20.1", regex=True),
     V("h2 segment memory lines from a literal table: operands exchanged", "break", _R, _SEG_RE, _seg_table(swap=True), "O20.2", regex=True),
+]
+
+
+# ---- hardening round 3: a construct inside an extracted helper stands for one instance per call of the helper, one inside a loop / comprehension over a literal table for one per
+# row; calls through a table of bound methods; pairs unpacked from a generator / a helper; the writer by role. Each shape as `keep`, the defect INSIDE the shape as `break` ----
+_TRANS_RE = r"    def _report_transform_processing_times\(self, baseline_stats, contender_stats\):\n.*?(?=    def _report_ingest_pipeline_counts)"
+_TRANS_GUARD = "        if baseline_stats.total_transform_processing_times is None or contender_stats.total_transform_processing_times is None:\n            return lines\n"
+
+
+def _transform_helper(search_flag="False", index_args="baseline_stats.total_transform_index_times,\n                contender_stats.total_transform_index_times", guard=_TRANS_GUARD, id_member="id"):
+    """the b5 shape: the four copies of the pairing loop extracted into one helper that iterates its parameters"""
+    def call(label, attr, flag, args=None):
+        args = args or f"baseline_stats.{attr},\n                contender_stats.{attr}"
+        return f'        lines.extend(\n            self._report_transform_metric(\n                "{label}",\n                {args},\n                treat_increase_as_improvement={flag},\n            )\n        )\n'
+
+    return (
+        "    def _report_transform_processing_times(self, baseline_stats, contender_stats):\n        lines = []\n" + guard +
+        call("Transform processing time", "total_transform_processing_times", "False") + call("Transform indexing time", "total_transform_index_times", "False", index_args) +
+        call("Transform search time", "total_transform_search_times", search_flag) + call("Transform throughput", "total_transform_throughput", "True") +
+        "        return lines\n\n"
+        "    def _report_transform_metric(self, name, baseline_transforms, contender_transforms, treat_increase_as_improvement):\n        lines = []\n"
+        "        for baseline in baseline_transforms:\n            transform_id = baseline[\"" + id_member + "\"]\n            for contender in contender_transforms:\n"
+        "                if contender[\"id\"] == transform_id:\n                    lines.append(\n                        self._line(\n                            name,\n"
+        "                            baseline[\"mean\"],\n                            contender[\"mean\"],\n                            transform_id,\n                            baseline[\"unit\"],\n"
+        "                            treat_increase_as_improvement=treat_increase_as_improvement,\n                        )\n                    )\n        return lines\n\n"
+    )
+
+
+def _transform_table(thr_flag="True", guard=_TRANS_GUARD, helper=True, contender_attr="attribute"):
+    """the transform lines driven by a literal table (label, attribute, direction), the lists read with getattr; with or without the extracted helper"""
+    head = (
+        "    def _report_transform_processing_times(self, baseline_stats, contender_stats):\n        lines = []\n" + guard +
+        "        for label, attribute, higher_is_better in (\n"
+        '            ("Transform processing time", "total_transform_processing_times", False),\n            ("Transform indexing time", "total_transform_index_times", False),\n'
+        '            ("Transform search time", "total_transform_search_times", False),\n            ("Transform throughput", "total_transform_throughput", ' + thr_flag + "),\n        ):\n"
+    )
+    loop = (
+        "{i}for baseline in {b}:\n{i}    transform_id = baseline[\"id\"]\n{i}    for contender in {c}:\n{i}        if contender[\"id\"] == transform_id:\n"
+        "{i}            lines.append(self._line(label, baseline[\"mean\"], contender[\"mean\"], transform_id, baseline[\"unit\"], treat_increase_as_improvement=higher_is_better))\n"
+    )
+    if not helper:
+        return head + loop.format(i=" " * 12, b="getattr(baseline_stats, attribute)", c=f"getattr(contender_stats, {contender_attr})") + "        return lines\n\n"
+    return (
+        head + f"            lines.extend(self._transform_lines(label, getattr(baseline_stats, attribute), getattr(contender_stats, {contender_attr}), higher_is_better))\n        return lines\n\n"
+        "    def _transform_lines(self, label, baseline_transforms, contender_transforms, higher_is_better):\n        lines = []\n" +
+        loop.format(i=" " * 8, b="baseline_transforms", c="contender_transforms") + "        return lines\n\n"
+    )
+
+
+_ML_RE = r"    def _report_ml_processing_times\(self, baseline_stats, contender_stats\):\n.*?(?=    def _report_transform_processing_times)"
+
+
+def _ml_table(flag="False", ops="baseline[stat],\n                            contender[stat]", shape="generator", key="job"):
+    """the b8 shape: the four ML lines from a generator over a literal (label, key) table; or the contender looked up through a filtering generator / an index"""
+    lines = (
+        '{i}lines.extend(\n{i}    self._line(\n{i}        f"{{label}} ML processing time",\n{i}        ' + ops.replace("\n                            ", "\n{i}        ") + ",\n{i}        job_name,\n{i}        unit,\n"
+        "{i}        treat_increase_as_improvement=" + flag + ",\n{i}    )\n"
+        '{i}    for label, stat in (("Min", "min"), ("Mean", "mean"), ("Median", "median"), ("Max", "max"))\n{i})\n'
+    )
+    head = "    def _report_ml_processing_times(self, baseline_stats, contender_stats):\n        lines = []\n"
+    if shape == "generator":
+        return (head + '        for baseline in baseline_stats.ml_processing_time:\n            job_name = baseline["job"]\n            unit = baseline["unit"]\n'
+                '            for contender in contender_stats.ml_processing_time:\n                if contender["job"] == job_name:\n' + lines.format(i=" " * 20) + "        return lines\n\n")
+    if shape == "filter":
+        return (head + '        for baseline in baseline_stats.ml_processing_time:\n            job_name = baseline["job"]\n            unit = baseline["unit"]\n'
+                '            for contender in (c for c in contender_stats.ml_processing_time if c["' + key + '"] == job_name):\n' + lines.format(i=" " * 16) + "        return lines\n\n")
+    return (head + '        contender_by_job = {contender["' + key + '"]: contender for contender in contender_stats.ml_processing_time}\n'
+            '        for baseline in baseline_stats.ml_processing_time:\n            job_name = baseline["job"]\n            contender = contender_by_job.get(job_name)\n'
+            "            if contender is None:\n                continue\n            unit = baseline[\"unit\"]\n" + lines.format(i=" " * 12) + "        return lines\n\n")
+
+
+_SECTIONS_OLD = "".join(f"        metrics_table.extend(self.{m}(baseline_stats, contender_stats))\n" for m in (
+    "_report_total_times", "_report_ml_processing_times", "_report_gc_metrics", "_report_disk_usage", "_report_segment_memory", "_report_segment_counts",
+    "_report_transform_processing_times", "_report_ingest_pipeline_counts", "_report_ingest_pipeline_times", "_report_ingest_pipeline_failed"))
+
+
+def _sections_table(args="baseline_stats, contender_stats"):
+    return ("        for section in (\n" + "".join(f"            self.{m},\n" for m in (
+        "_report_total_times", "_report_ml_processing_times", "_report_gc_metrics", "_report_disk_usage", "_report_segment_memory", "_report_segment_counts",
+        "_report_transform_processing_times", "_report_ingest_pipeline_counts", "_report_ingest_pipeline_times", "_report_ingest_pipeline_failed")) +
+        f"        ):\n            metrics_table.extend(section({args}))\n")
+
+
+_THR_RE = r"    def _report_throughput\(self, baseline_stats, contender_stats, task\):\n.*?(?=    def _report_latency)"
+
+
+def _thr_generator(read="baseline_throughput.get(stat)", flag="True"):
+    return (
+        "    def _report_throughput(self, baseline_stats, contender_stats, task):\n"
+        '        baseline_throughput = baseline_stats.metrics(task)["throughput"]\n        contender_throughput = contender_stats.metrics(task)["throughput"]\n'
+        "        return self._join(\n            *(\n                self._line(\n                    f\"{label} Throughput\",\n                    " + read + ",\n"
+        "                    contender_throughput.get(stat),\n                    task,\n                    baseline_throughput[\"unit\"],\n                    treat_increase_as_improvement=" + flag + ",\n"
+        '                )\n                for label, stat in (("Min", "min"), ("Mean", "mean"), ("Median", "median"), ("Max", "max"))\n            )\n        )\n\n'
+    )
+
+
+_THR_LINES = (
+    '        return self._join(\n            self._line("Min Throughput", b_min, c_min, task, b_unit, treat_increase_as_improvement=True),\n'
+    '            self._line("Mean Throughput", b_mean, c_mean, task, b_unit, treat_increase_as_improvement=True),\n'
+    '            self._line("Median Throughput", b_median, c_median, task, b_unit, treat_increase_as_improvement=True),\n'
+    '            self._line("Max Throughput", b_max, c_max, task, b_unit, treat_increase_as_improvement=True),\n        )'
+)
+
+
+def _thr_nested(inner="baseline_value, contender_value", median="b_median, c_median"):
+    return (
+        "        def throughput_line(label, baseline_value, contender_value):\n            return self._line(label, " + inner + ", task, b_unit, treat_increase_as_improvement=True)\n\n"
+        '        return self._join(\n            throughput_line("Min Throughput", b_min, c_min),\n            throughput_line("Mean Throughput", b_mean, c_mean),\n'
+        '            throughput_line("Median Throughput", ' + median + '),\n            throughput_line("Max Throughput", b_max, c_max),\n        )'
+    )
+
+
+_ING_RE = r"    def _report_ingest_pipeline_counts\(self, baseline_stats, contender_stats\):\n.*?(?=    def _report_disk_usage_stats_per_field)"
+
+
+def _ingest_helper(guard="baseline_value is None"):
+    def m(name, label, attr, unit):
+        return (f"    def {name}(self, baseline_stats, contender_stats):\n        return self._ingest_pipeline_line(\n"
+                f'            "{label}", baseline_stats.{attr}, contender_stats.{attr}, "{unit}"\n        )\n\n')
+
+    return (m("_report_ingest_pipeline_counts", "Total Ingest Pipeline count", "ingest_pipeline_cluster_count", "") + m("_report_ingest_pipeline_times", "Total Ingest Pipeline time", "ingest_pipeline_cluster_time", "ms") +
+            m("_report_ingest_pipeline_failed", "Total Ingest Pipeline failed", "ingest_pipeline_cluster_failed", "") +
+            "    def _ingest_pipeline_line(self, name, baseline_value, contender_value, unit):\n        if " + guard + ":\n            return []\n"
+            '        return self._join(self._line(name, baseline_value, contender_value, "", unit, treat_increase_as_improvement=False))\n\n')
+
+
+_TT_RE = r"    def _report_total_times\(self, baseline_stats, contender_stats\):\n.*?(?=    def _report_total_time\()"
+_TT_TABLE = (
+    "    def _report_total_times(self, baseline_stats, contender_stats):\n        lines = []\n        for name, attribute, count_attribute in (\n"
+    '            ("indexing", "total_time", None),\n            ("indexing throttle", "indexing_throttle_time", None),\n            ("merge", "merge_time", "merge_count"),\n'
+    '            ("merge throttle", "merge_throttle_time", None),\n            ("refresh", "refresh_time", "refresh_count"),\n            ("flush", "flush_time", "flush_count"),\n        ):\n'
+    '            lines.extend(self._report_total_time(f"{name} time", getattr(baseline_stats, attribute), getattr(contender_stats, attribute)))\n'
+    "            if count_attribute:\n"
+    '                lines.extend(self._report_total_count(f"{name} count", getattr(baseline_stats, count_attribute), getattr(contender_stats, count_attribute)))\n'
+    "            lines.extend(\n                self._report_total_time_per_shard(\n"
+    '                    f"{name} time", getattr(baseline_stats, f"{attribute}_per_shard"), getattr(contender_stats, f"{attribute}_per_shard")\n                )\n            )\n        return lines\n\n'
+)
+
+_WRITE_FILE_OLD = (
+    "    if len(report_file) > 0:\n        normalized_report_file = rio.normalize_path(report_file, cwd)\n        # ensure that the parent folder already exists when we try to write the file...\n"
+    "        rio.ensure_dir(rio.dirname(normalized_report_file))\n        with open(normalized_report_file, mode=\"a+\", encoding=\"utf-8\") as f:\n            f.writelines(formatter(headers, data_plain))\n"
+)
+
+
+def _write_file_helper(data="data_plain"):
+    return (
+        "    if len(report_file) > 0:\n        _append_to_report_file(report_file, cwd, formatter(headers, " + data + "))\n\n\n"
+        "def _append_to_report_file(report_file, cwd, content):\n    normalized_report_file = rio.normalize_path(report_file, cwd)\n"
+        "    rio.ensure_dir(rio.dirname(normalized_report_file))\n    with open(normalized_report_file, mode=\"a+\", encoding=\"utf-8\") as f:\n        f.writelines(content)\n"
+    )
+
+
+_REPORT_TABLES = (
+    "        metric_table_plain = self._metrics_table(baseline_stats, contender_stats, plain=True)\n        metric_table_rich = self._metrics_table(baseline_stats, contender_stats, plain=False)\n"
+    "        # Writes metric_table_rich to console, writes metric_table_plain to file\n        self._write_report(metric_table_plain, metric_table_rich)\n"
+)
+_TASK_TAIL = _TASK_LOOP + "        return metrics_table\n"
+
+
+def _task_helper(head):
+    return (
+        head + "        return metrics_table\n\n    def _report_task(self, baseline_stats, contender_stats, task):\n        lines = []\n"
+        "        lines.extend(self._report_throughput(baseline_stats, contender_stats, task))\n        lines.extend(self._report_latency(baseline_stats, contender_stats, task))\n"
+        "        lines.extend(self._report_service_time(baseline_stats, contender_stats, task))\n        if self.show_processing_time:\n"
+        "            lines.extend(self._report_processing_time(baseline_stats, contender_stats, task))\n        lines.extend(self._report_error_rate(baseline_stats, contender_stats, task))\n        return lines\n"
+    )
+
+
+def _task_generator(cond="if t in contender_tasks "):
+    return _task_helper("        contender_tasks = contender_stats.tasks()\n        metrics_table.extend(\n"
+                        "            line for t in baseline_stats.tasks() " + cond + "for line in self._report_task(baseline_stats, contender_stats, t)\n        )\n")
+
+
+def _task_continue(test="t not in contender_stats.tasks()"):
+    return _task_helper("        for t in baseline_stats.tasks():\n            if " + test + ":\n                continue\n            metrics_table += self._report_task(baseline_stats, contender_stats, t)\n")
+
+
+def _row_loop(order="cells[0], unit, cells[1]"):
+    return (
+        "        if None in (baseline, contender):\n            return []\n        cells = []\n        for relative in (False, True):\n"
+        "            cells.append(self._diff(baseline, contender, treat_increase_as_improvement, formatter, as_percentage=relative))\n"
+        "        return [metric, str(task), formatter(baseline), formatter(contender), " + order + "]\n"
+    )
+
+
+def _row_appended(guard="baseline is None or contender is None"):
+    return (
+        "        if " + guard + ":\n            return []\n        row = [metric, str(task), formatter(baseline), formatter(contender)]\n"
+        "        row.append(self._diff(baseline, contender, treat_increase_as_improvement, formatter))\n        row.append(unit)\n"
+        "        row.append(self._diff(baseline, contender, treat_increase_as_improvement, formatter, as_percentage=True))\n        return row\n"
+    )
+
+
+def _row_with_try(guard="None in (baseline, contender)"):
+    return (
+        "        if " + guard + ":\n            return []\n        try:\n            absolute = self._diff(baseline, contender, treat_increase_as_improvement, formatter)\n"
+        "        finally:\n            self.logger.debug(\"compared %s\", metric)\n"
+        "        return [\n            metric,\n            str(task),\n            formatter(baseline),\n            formatter(contender),\n            absolute,\n            unit,\n"
+        "            self._diff(baseline, contender, treat_increase_as_improvement, formatter, as_percentage=True),\n        ]\n"
+    )
+
+
+_LAT_OLD = '        baseline_latency = baseline_stats.metrics(task)["latency"]\n        contender_latency = contender_stats.metrics(task)["latency"]\n'
+_SVC_DEF = "    def _report_service_time(self, baseline_stats, contender_stats, task):\n"
+_PT_OLD = ('        baseline_processing_time = baseline_stats.metrics(task).get("processing_time") or {}\n'
+           '        contender_processing_time = contender_stats.metrics(task).get("processing_time") or {}\n')
+
+
+def _pt_pair(read='stats.metrics(task).get("processing_time") or {}'):
+    return "        baseline_processing_time, contender_processing_time = (\n            " + read + " for stats in (baseline_stats, contender_stats)\n        )\n"
+
+
+VARIANTS += [
+    # b5: the pairing loop in a helper that iterates its parameters; label, lists and direction flag arrive as arguments
+    V("h3 b5 shape: transform lines through a helper that iterates its parameters", "keep", _R, _TRANS_RE, _transform_helper(), regex=True),
+    V("h3 b5 shape: the helper is called with increase-is-improvement for the search time", "break", _R, _TRANS_RE, _transform_helper(search_flag="True"), "O20.1", regex=True),
+    V("h3 b5 shape: the helper is handed the contender's list first", "break", _R, _TRANS_RE,
+      _transform_helper(index_args="contender_stats.total_transform_index_times,\n                baseline_stats.total_transform_index_times"), "O20.2", regex=True),
+    V("h3 b5 shape: the helper is handed two different statistics", "break", _R, _TRANS_RE,
+      _transform_helper(index_args="baseline_stats.total_transform_index_times,\n                contender_stats.total_transform_search_times"), "O20.2", regex=True),
+    V("h3 b5 shape: the caller's None guard covers the baseline only", "break", _R, _TRANS_RE,
+      _transform_helper(guard="        if baseline_stats.total_transform_processing_times is None:\n            return lines\n"), "O20.5", regex=True),
+    V("h3 b5 shape: the helper pairs by different members", "break", _R, _TRANS_RE, _transform_helper(id_member="unit"), "O20.2", regex=True),
+    # the same lines driven by a literal table, the lists read with getattr
+    V("h3 transform lines from a literal table + getattr + helper", "keep", _R, _TRANS_RE, _transform_table(), regex=True),
+    V("h3 transform lines from a literal table, no helper", "keep", _R, _TRANS_RE, _transform_table(helper=False), regex=True),
+    V("h3 transform table: direction of the throughput row inverted", "break", _R, _TRANS_RE, _transform_table(thr_flag="False"), "O20.1", regex=True),
+    V("h3 transform table: contender list is always the search times", "break", _R, _TRANS_RE, _transform_table(contender_attr='"total_transform_search_times"'), "O20.2", regex=True),
+    V("h3 transform table, no helper: None guard covers the baseline only", "break", _R, _TRANS_RE,
+      _transform_table(helper=False, guard="        if baseline_stats.total_transform_processing_times is None:\n            return lines\n"), "O20.5", regex=True),
+    # b8: lines from a generator over a literal (label, key) table
+    V("h3 b8 shape: ML lines from a generator over a literal table", "keep", _R, _ML_RE, _ml_table(), regex=True),
+    V("h3 b8 shape: direction flag of the generated ML lines inverted", "break", _R, _ML_RE, _ml_table(flag="True"), "O20.1", regex=True),
+    V("h3 b8 shape: operands of the generated ML lines exchanged", "break", _R, _ML_RE, _ml_table(ops="contender[stat],\n                            baseline[stat]"), "O20.2", regex=True),
+    V("h3 ML contender found by a filtering generator", "keep", _R, _ML_RE, _ml_table(shape="filter"), regex=True),
+    V("h3 ML contender found by a filtering generator on another member", "break", _R, _ML_RE, _ml_table(shape="filter", key="unit"), "O20.2", regex=True),
+    V("h3 ML contender found through an index by job", "keep", _R, _ML_RE, _ml_table(shape="index"), regex=True),
+    V("h3 ML contender found through an index built on another member", "break", _R, _ML_RE, _ml_table(shape="index", key="unit"), "O20.2", regex=True),
+    # calls through a literal table of bound methods
+    V("h3 sections of the table called through a tuple of bound methods", "keep", _R, _SECTIONS_OLD, _sections_table()),
+    V("h3 sections through a tuple of bound methods: races exchanged at the call", "break", _R, _SECTIONS_OLD, _sections_table("contender_stats, baseline_stats"), "O20.2"),
+    # throughput lines from a generator; optional member read with the loop variable as key
+    V("h3 throughput lines from a generator over (label, key)", "keep", _R, _THR_RE, _thr_generator(), regex=True),
+    V("h3 throughput generator: baseline member read by subscript", "break", _R, _THR_RE, _thr_generator(read="baseline_throughput[stat]"), "O20.5", regex=True),
+    V("h3 throughput generator: direction flag inverted", "break", _R, _THR_RE, _thr_generator(flag="False"), "O20.1", regex=True),
+    # a nested helper with parameters
+    V("h3 throughput lines through a nested helper with parameters", "keep", _R, _THR_LINES, _thr_nested()),
+    V("h3 nested helper passes its parameters in the wrong order", "break", _R, _THR_LINES, _thr_nested(inner="contender_value, baseline_value"), "O20.2"),
+    V("h3 nested helper called with the operands exchanged", "break", _R, _THR_LINES, _thr_nested(median="c_median, b_median"), "O20.2"),
+    # scalar lines through one helper that guards its parameter
+    V("h3 ingest pipeline lines through one helper with a None guard on its parameter", "keep", _R, _ING_RE, _ingest_helper(), regex=True),
+    V("h3 ingest pipeline helper guards its parameter by truthiness", "break", _R, _ING_RE, _ingest_helper(guard="not baseline_value"), "O20.5", regex=True),
+    V("h3 total times driven by a literal table (getattr, optional count column)", "keep", _R, _TT_RE, _TT_TABLE, regex=True),
+    # the writer by role
+    V("h3 writer: the file is written by an extracted module-level helper", "keep", _R, _WRITE_FILE_OLD, _write_file_helper()),
+    V("h3 writer: the extracted file helper is handed the rich rendering", "break", _R, _WRITE_FILE_OLD, _write_file_helper("data_rich"), "O20.4"),
+    [V("h3 writer: formatter called with keywords", "keep", _R, "    print_internal(formatter(headers, data_rich))\n", "    print_internal(formatter(headers=headers, data=data_rich))\n"),
+     V("", "keep", _R, "            f.writelines(formatter(headers, data_plain))\n", "            f.writelines(formatter(headers=headers, data=data_plain))\n")],
+    [V("h3 writer: formatter called with keywords, console gets the plain table", "break", _R, "    print_internal(formatter(headers, data_rich))\n", "    print_internal(formatter(headers=headers, data=data_plain))\n", "O20.4"),
+     V("", "break", _R, "            f.writelines(formatter(headers, data_plain))\n", "            f.writelines(formatter(headers=headers, data=data_plain))\n")],
+    [V("h3 writer: data parameters renamed consistently", "keep", _R, "data_plain", "rows_for_file", count=4), V("", "keep", _R, "data_rich", "rows_for_console", count=4)],
+    [V("h3 writer: data parameters renamed, tables exchanged at _write_report", "break", _R, "data_plain", "rows_for_file", "O20.4", count=4), V("", "break", _R, "data_rich", "rows_for_console", count=4),
+     V("", "break", _R, "            rows_for_file=metrics_table,\n            rows_for_console=metrics_table_console,", "            rows_for_file=metrics_table_console,\n            rows_for_console=metrics_table,")],
+    # the two tables built in a comprehension over the flags
+    V("h3 report(): both tables from a dict comprehension over the flags", "keep", _R, _REPORT_TABLES,
+      "        tables = {plain: self._metrics_table(baseline_stats, contender_stats, plain=plain) for plain in (True, False)}\n        self._write_report(tables[True], tables[False])\n"),
+    V("h3 report(): tables from a dict comprehension, subscripts exchanged", "break", _R, _REPORT_TABLES,
+      "        tables = {plain: self._metrics_table(baseline_stats, contender_stats, plain=plain) for plain in (True, False)}\n        self._write_report(tables[False], tables[True])\n", "O20.4"),
+    V("h3 report(): tables unpacked from a generator over the flags", "keep", _R, _REPORT_TABLES,
+      "        metric_table_plain, metric_table_rich = (self._metrics_table(baseline_stats, contender_stats, plain=flag) for flag in (True, False))\n        self._write_report(metric_table_plain, metric_table_rich)\n"),
+    V("h3 report(): tables unpacked from a generator over the flags in the wrong order", "break", _R, _REPORT_TABLES,
+      "        metric_table_plain, metric_table_rich = (self._metrics_table(baseline_stats, contender_stats, plain=flag) for flag in (False, True))\n        self._write_report(metric_table_plain, metric_table_rich)\n", "O20.4"),
+    # per-task lines from a generator expression / a guard clause with an extracted per-task helper
+    V("h3 per-task lines from a generator expression with the membership test as its condition", "keep", _R, _TASK_TAIL, _task_generator()),
+    V("h3 per-task generator keeps the tasks missing in the contender", "break", _R, _TASK_TAIL, _task_generator("if t not in contender_tasks "), "O20.5"),
+    V("h3 per-task generator without membership test", "break", _R, _TASK_TAIL, _task_generator(""), "O20.5"),
+    V("h3 per-task helper behind a guard clause", "keep", _R, _TASK_TAIL, _task_continue()),
+    V("h3 per-task helper behind a guard clause of the wrong polarity", "break", _R, _TASK_TAIL, _task_continue("t in contender_stats.tasks()"), "O20.5"),
+    # _line built by statements the interpreter now follows (loop + append), or cannot follow (try): decided on values either way
+    V("h3 _line: difference cells collected in a loop over (False, True)", "keep", _R, _ROW_OLD, _row_loop()),
+    V("h3 _line: cells collected in a loop, relative and absolute cell exchanged", "break", _R, _ROW_OLD, _row_loop("cells[1], unit, cells[0]"), "O20.3"),
+    V("h3 _line: row appended cell by cell", "keep", _R, _ROW_OLD, _row_appended()),
+    V("h3 _line: row appended cell by cell behind a truthiness guard", "break", _R, _ROW_OLD, _row_appended("not (baseline and contender)"), "O20.5"),
+    V("h3 _line with a try statement (not interpretable as a whole): `None in (...)` guard", "keep", _R, _ROW_OLD, _row_with_try()),
+    V("h3 _line with a try statement: truthiness guard", "break", _R, _ROW_OLD, _row_with_try("not baseline or not contender"), "O20.5"),
+    # pairs unpacked from a generator over (baseline, contender) / from a helper that returns a pair
+    V("h3 latency records unpacked from a generator over both races", "keep", _R, _LAT_OLD,
+      '        baseline_latency, contender_latency = (stats.metrics(task)["latency"] for stats in (baseline_stats, contender_stats))\n'),
+    V("h3 latency records unpacked from a generator over (contender, baseline)", "break", _R, _LAT_OLD,
+      '        baseline_latency, contender_latency = (stats.metrics(task)["latency"] for stats in (contender_stats, baseline_stats))\n', "O20.2"),
+    [V("h3 latency records from a helper that returns a pair", "keep", _R, _LAT_OLD, '        baseline_latency, contender_latency = self._both(baseline_stats, contender_stats, task, "latency")\n'),
+     V("", "keep", _R, _SVC_DEF, "    def _both(self, baseline_stats, contender_stats, task, key):\n        return baseline_stats.metrics(task)[key], contender_stats.metrics(task)[key]\n\n" + _SVC_DEF)],
+    [V("h3 latency records from a helper that returns the pair in the wrong order", "break", _R, _LAT_OLD, '        baseline_latency, contender_latency = self._both(baseline_stats, contender_stats, task, "latency")\n', "O20.2"),
+     V("", "break", _R, _SVC_DEF, "    def _both(self, baseline_stats, contender_stats, task, key):\n        return contender_stats.metrics(task)[key], baseline_stats.metrics(task)[key]\n\n" + _SVC_DEF)],
+    V("h3 optional processing time of both races read in one generator", "keep", _R, _PT_OLD, _pt_pair()),
+    V("h3 optional processing time of both races read by subscript in one generator", "break", _R, _PT_OLD, _pt_pair('stats.metrics(task)["processing_time"]'), "O20.5"),
+]
+
+_MT_HEAD = "    def _metrics_table(self, baseline_stats, contender_stats, plain):\n        self.plain = plain\n"
+_MT_FIRST = "        self.plain = plain\n        metrics_table = []\n        metrics_table.extend(self._report_total_times(baseline_stats, contender_stats))\n"
+_PER_TASK_HEAD = "        for t in baseline_stats.tasks():\n            if t in contender_stats.tasks():\n                metrics_table.extend(self._report_throughput"
+
+VARIANTS += [
+    # additive log lines read the flag / one race only: no selection of a compared value, no effect on the report
+    V("h3 debug log line in _metrics_table mentions the flag and the baseline's task count", "keep", _R, _MT_HEAD,
+      _MT_HEAD + '        self.logger.debug("Comparing [%d] baseline tasks (plain=%s).", len(baseline_stats.tasks()), self.plain)\n'),
+    # list-valued statistics guarded by truthiness (None and empty both yield no line)
+    V("h3 nullable list statistics guarded by truthiness", "keep", _R, _TRANS_GUARD,
+      "        if not baseline_stats.total_transform_processing_times or not contender_stats.total_transform_processing_times:\n            return lines\n"),
+    V("h3 nullable list statistics: truthiness guard on the baseline only", "break", _R, _TRANS_GUARD, "        if not baseline_stats.total_transform_processing_times:\n            return lines\n", "O20.5"),
+    # the flag assignment by control flow
+    V("h3 the flag is assigned after logging and list creation, through bool()", "keep", _R, "        self.plain = plain\n        metrics_table = []\n",
+      '        metrics_table = []\n        self.logger.debug("Building the comparison table.")\n        self.plain = bool(plain)\n'),
+    V("h3 the flag is assigned after the first section was built", "break", _R, _MT_FIRST,
+      "        metrics_table = []\n        metrics_table.extend(self._report_total_times(baseline_stats, contender_stats))\n        self.plain = plain\n", "O20.4"),
+    V("h3 the flag is reset before the per-task lines", "break", _R, _PER_TASK_HEAD, "        self.plain = False\n" + _PER_TASK_HEAD, "O20.4"),
+]
+
+_BOTH_ZERO = "                    if baseline_value == 0 and contender_value == 0:\n                        continue\n"
+_STATS_OLD = "        baseline_stats = metrics.GlobalStats(r1.results)\n        contender_stats = metrics.GlobalStats(r2.results)\n"
+_HDR_RE = r'        print_internal\(""\)\n        print_internal\("Comparing baseline"\)\n.*?        print_header\(FINAL_SCORE\)\n'
+_MT_DEF = "    def _metrics_table(self, baseline_stats, contender_stats, plain):\n"
+
+
+def _common_tasks(cond="t in contender_tasks"):
+    return (
+        "        for t in self._common_tasks(baseline_stats, contender_stats):\n"
+        "            metrics_table.extend(self._report_throughput(baseline_stats, contender_stats, t))\n            metrics_table.extend(self._report_latency(baseline_stats, contender_stats, t))\n"
+        "            metrics_table.extend(self._report_service_time(baseline_stats, contender_stats, t))\n            if self.show_processing_time:\n"
+        "                metrics_table.extend(self._report_processing_time(baseline_stats, contender_stats, t))\n            metrics_table.extend(self._report_error_rate(baseline_stats, contender_stats, t))\n"
+        "        return metrics_table\n\n    def _common_tasks(self, baseline_stats, contender_stats):\n        contender_tasks = contender_stats.tasks()\n"
+        "        return [t for t in baseline_stats.tasks() if " + cond + "]\n"
+    )
+
+
+VARIANTS += [
+    # tests on compared values are decided on values (operand 0 vs 5): skipping a line whose values are BOTH zero is the existing behaviour, whatever the spelling
+    V("h3 both-zero disk usage lines skipped by truthiness of both values", "keep", _R, _BOTH_ZERO, "                    if not baseline_value and not contender_value:\n                        continue\n"),
+    V("h3 both-zero disk usage lines skipped by a chained comparison", "keep", _R, _BOTH_ZERO, "                    if baseline_value == contender_value == 0:\n                        continue\n"),
+    V("h3 disk usage lines skipped when EITHER value is zero", "break", _R, _BOTH_ZERO, "                    if not baseline_value or not contender_value:\n                        continue\n", "O20.5"),
+    V("h3 scalar guard `is None or <= 0`", "break", _R, "        if baseline_stats.ingest_pipeline_cluster_failed is None:",
+      "        if baseline_stats.ingest_pipeline_cluster_failed is None or baseline_stats.ingest_pipeline_cluster_failed <= 0:", "O20.5"),
+    # the task intersection computed by an extracted helper method
+    V("h3 common tasks computed by an extracted helper method", "keep", _R, _TASK_TAIL, _common_tasks()),
+    V("h3 common tasks helper keeps the tasks missing in the contender", "break", _R, _TASK_TAIL, _common_tasks("t not in contender_tasks"), "O20.5"),
+    V("h3 common tasks helper tests membership in the same race", "break", _R, _TASK_TAIL, _common_tasks("t in baseline_stats.tasks()"), "O20.5"),
+    V("h3 pairing id read with .get() and a default", "keep", _R, '            job_name = baseline["job"]\n', '            job_name = baseline.get("job", "")\n'),
+    # report(): both statistics objects from one generator; the race headers through a helper
+    V("h3 report(): statistics of both races unpacked from a generator over (r1, r2)", "keep", _R, _STATS_OLD, "        baseline_stats, contender_stats = (metrics.GlobalStats(race.results) for race in (r1, r2))\n"),
+    V("h3 report(): statistics unpacked from a generator over (r2, r1)", "break", _R, _STATS_OLD, "        baseline_stats, contender_stats = (metrics.GlobalStats(race.results) for race in (r2, r1))\n", "O20.2"),
+    [V("h3 report(): race headers printed by a helper called once per race", "keep", _R, _HDR_RE,
+       '        print_internal("")\n        self._print_race("Comparing baseline", r1)\n        print_internal("")\n        self._print_race("with contender", r2)\n        print_header(FINAL_SCORE)\n', regex=True),
+     V("", "keep", _R, _MT_DEF, '    def _print_race(self, title, race):\n        print_internal(title)\n        print_internal("  Race ID: %s" % race.race_id)\n'
+       '        print_internal("  Race timestamp: %s" % race.race_timestamp)\n        if race.challenge_name:\n            print_internal("  Challenge: %s" % race.challenge_name)\n'
+       '        print_internal("  Car: %s" % race.car_name)\n\n' + _MT_DEF)],
 ]
